@@ -3,7 +3,9 @@ package main
 import (
 	"fmt"
 	"go/ast"
+	"go/parser"
 	"go/token"
+	"path/filepath"
 	"sort"
 	"strconv"
 	"strings"
@@ -17,6 +19,10 @@ func init() { generators["dsd"] = genDsd }
 //   - the dispatch tables of LoadAsFormat and dumpWithoutIdentifier: format -> third-party codec called (dsd.go)
 //   - the case sets of the compression switches in DumpAndCompress / DecompressAndLoad (compression.go)
 //   - the maps FormatToMimeType / MimeTypeToFormat (http.go)
+//   - the package's state surface: the names of all package-level variables of the non-test files that are not
+//     error values (`errors.New("...")`), and of every `init` function. The model is a set of pure functions of
+//     (arguments, the two Default* variables); a new package-level variable (a cache, a pool, a value computed at
+//     init time) is state the model does not have, and changes `packageState` (a theorem pins the list).
 //
 // Fails closed on every shape it does not recognise.
 func genDsd() {
@@ -366,8 +372,70 @@ func genDsd() {
 		fmt.Fprintf(&sb, "  (%s, %s)%s  -- %q\n", codePoints(r.k), r.v, comma(i, len(rows)), r.k)
 	}
 	sb.WriteString("]\n\n")
+	// ---- state surface of the package ---------------------------------------------------------------
+	files, err := filepath.Glob(filepath.Join(repo, "formats/dsd", "*.go"))
+	if err != nil || len(files) == 0 {
+		die("dsd: cannot list the package files")
+	}
+	sort.Strings(files)
+	var state []string
+	for _, path := range files {
+		if strings.HasSuffix(path, "_test.go") {
+			continue
+		}
+		pf, err := parser.ParseFile(token.NewFileSet(), path, nil, 0)
+		if err != nil {
+			die("parse %s: %v", path, err)
+		}
+		for _, d := range pf.Decls {
+			switch d := d.(type) {
+			case *ast.FuncDecl:
+				if d.Recv == nil && d.Name.Name == "init" {
+					state = append(state, "init()@"+filepath.Base(path))
+				}
+			case *ast.GenDecl:
+				if d.Tok != token.VAR {
+					continue
+				}
+				for _, s := range d.Specs {
+					vs := s.(*ast.ValueSpec)
+					for i, n := range vs.Names {
+						if n.Name == "_" {
+							continue
+						}
+						if i < len(vs.Values) && len(vs.Values) == len(vs.Names) && dsdIsErrorsNew(vs.Values[i]) {
+							continue // an error value: compared by identity, never assigned
+						}
+						state = append(state, n.Name)
+					}
+				}
+			}
+		}
+	}
+	sort.Strings(state)
+	sb.WriteString("/-- Package-level variables of the non-test files of formats/dsd that are not `errors.New` values, and `init`\n    functions: everything a call could depend on besides its arguments. -/\n")
+	quoted := make([]string, len(state))
+	for i, n := range state {
+		quoted[i] = strconv.Quote(n)
+	}
+	fmt.Fprintf(&sb, "def packageState : List String := [%s]\n\n", strings.Join(quoted, ", "))
+
 	sb.WriteString("end PB.Gen.Dsd\n")
 	write("Dsd.lean", sb.String())
+}
+
+// dsdIsErrorsNew: `errors.New("literal")`.
+func dsdIsErrorsNew(e ast.Expr) bool {
+	call, ok := e.(*ast.CallExpr)
+	if !ok || len(call.Args) != 1 {
+		return false
+	}
+	sel, ok := call.Fun.(*ast.SelectorExpr)
+	if !ok || !dsdIsIdent(sel.X, "errors") || sel.Sel.Name != "New" {
+		return false
+	}
+	l, ok := call.Args[0].(*ast.BasicLit)
+	return ok && l.Kind == token.STRING
 }
 
 func dsdLowerFirst(s string) string { return strings.ToLower(s[:1]) + s[1:] }
